@@ -13,7 +13,7 @@ RULE = (
     "psll P in [60,200], f0 a fractional bin at least sqrt(1+alpha^2) bins from 0 and L/2; +1.5 bins for detrend orders "
     "1,2) analysed at f0 by compute_single_bin (by L and by fres): |ps/(A^2/2)-1| <= 4*10^(-P/20)+1e-9; (a') generated "
     "full analyses with every window: ENBW == fs*sum(w^2)/(sum w)^2 and ps == psd*ENBW (rtol 1e-12); (b) arbitrary "
-    "records with a channel multiplied by c in +-10^[-6,6]: XX->c^2 XX, XY->c XY, Gxx/Gxy likewise, coherence "
+    "records with a channel multiplied by c in +-10^[-12,12]: XX->c^2 XX, XY->c XY, Gxx/Gxy likewise, coherence "
     "unchanged, Hxy scaled by c_y/c_x within the rounding budget; (c) relabelling fs->a*fs: a=2^k for full plans "
     "(f, r, ENBW *a; Gxx,Gyy,Gxy /a; coh, Hxy, L, K, D unchanged, rtol 1e-12) and arbitrary a>0 for single-bin "
     "requests with explicit L (budget). Non-trivial: (a) non-integer bin; (b) |c| not in {0,1}; (c) a != 1."
@@ -124,7 +124,8 @@ def oracle_enbw(case):
 def scale_case(draw, tier):
     N = draw(gens.loguniform_int(16, 2000))
     cfg = draw(gens.analysis_config(N, Jmax=30, Kmax=20))
-    c = draw(st.one_of(st.sampled_from([2.0, -1.0, -3.0, 0.5, 1e6, 1e-6, -1e-3]), gens.loguniform(1e-6, 1e6)))
+    c = draw(st.one_of(st.sampled_from([2.0, -1.0, -3.0, 0.5, 1e6, 1e-6, -1e-3, 1e-10, 1e10]), gens.loguniform(1e-6, 1e6),
+                       gens.loguniform(1e-12, 1e12)))
     if draw(st.booleans()):
         c = -c
     return {"N": N, "cfg": cfg, "fs": draw(st.sampled_from([1.0, 10.0, 0.01])), "c": c,
